@@ -400,6 +400,9 @@ def gen_dns():
     sws = fn_body(dnspkt, "serialise_with_size")
     spl = grab("dns.spliceRanges", sws, r"ret\.splice\((\d+)\.\.(=?)(\d+),\s*ancount.*?ret\.splice\((\d+)\.\.(=?)(\d+),\s*nscount.*?ret\.splice\((\d+)\.\.(=?)(\d+),\s*adcount",
                "dns/dnspkt.rs serialise_with_size", lambda m: [(int(m.group(i)), int(m.group(i + 2)) + (1 if m.group(i + 1) else 0)) for i in (1, 4, 7)])
+    pp = fn_body(dnspkt, "push_prefix")
+    lim = grab("dns.pointerLimit", pp, r"if\s+it\.label\s*==\s*\*label\s*(?:&&\s*it\.data\s*<\s*([0-9A-Za-z_]+)\s*)?\{",
+               "dns/dnspkt.rs push_prefix", lambda m: rust_int(m.group(1)) if m.group(1) else 65536)
     parse = strip_comments(read(os.path.join(CORE, "dns/parse.rs")))
     depth = grab("dns.pointerDepthLimit", fn_body(parse, "get_domain_into"), r"if\s+depth\s*>\s*([0-9]+)\s*\{", "dns/parse.rs get_domain_into", lambda m: int(m.group(1)))
 
@@ -439,6 +442,9 @@ def prepareFloor : Nat := {nat(floor512)}
 
 /-- `ret.splice(a..b, count)` ranges used to rewrite the three section counts after truncation -/
 def spliceRanges : List (Nat × Nat) := [({sp[0][0]}, {sp[0][1]}), ({sp[1][0]}, {sp[1][1]}), ({sp[2][0]}, {sp[2][1]})]
+
+/-- `push_prefix` only reuses a suffix-tree node whose offset is below this (65536 = no test) -/
+def pointerLimit : Nat := {nat(lim)}
 
 /-- `if depth > N` in `get_domain_into` (first call has depth 1) -/
 def pointerDepthLimit : Nat := {nat(depth)}
